@@ -197,7 +197,21 @@ def _setup(ctx, state):
     g = ctx.spec["grid"]
     tf = BeckeRTransform(g["rmin"], g["R"])
     rule = GaussLegendre if g["rule"] == "gl" else GaussChebyshev
-    rg = tf.transform_1d_grid(rule(g["nr"]))
+    rad = g.get("radial") or ["becke"]
+    if rad[0] == "becke":
+        rg = tf.transform_1d_grid(rule(g["nr"]))
+    elif rad[0] == "linfin":
+        from grid.rtransform import LinearFiniteRTransform
+
+        rg = LinearFiniteRTransform(rad[1], rad[2]).transform_1d_grid(rule(g["nr"]))
+    elif rad[0] == "knowles":
+        from grid.rtransform import KnowlesRTransform
+
+        rg = KnowlesRTransform(rad[1], rad[2], rad[3]).transform_1d_grid(rule(g["nr"]))
+    else:
+        raise ValueError(rad)
+    if rad[0] != "becke":
+        ctx.probes.hit("radial-grid-family:" + rad[0])
     c = np.array(g["center"], dtype=float)
     state["grid"] = _atomgrid(g, rg, c, g["rotate"])
     # a second grid object of the same size but another rotation: solves alternate between the two
@@ -209,7 +223,26 @@ def _setup(ctx, state):
 
         for k in ("grid", "grid_b"):
             state[k] = MolGrid(np.array([1]), [state[k]], BeckeWeights(order=3), store=True)
-    state["tf"] = InverseRTransform(tf)
+    # the map the radial ODEs are solved through is the caller's choice too: the inverse of the map that made the radial
+    # grid (the usual case), the inverse of another map of [-1, 1] onto the half line, or none at all (identity)
+    ot = g.get("ode_tf") or ["inv_same"]
+    if ot[0] == "inv_same":
+        state["tf"] = InverseRTransform(tf)
+    elif ot[0] == "identity":
+        from grid.rtransform import IdentityRTransform
+
+        state["tf"] = IdentityRTransform()
+    elif ot[0] == "inv_becke":
+        state["tf"] = InverseRTransform(BeckeRTransform(ot[1], ot[2]))
+    elif ot[0] == "inv_linfin":
+        from grid.rtransform import LinearFiniteRTransform
+
+        state["tf"] = InverseRTransform(LinearFiniteRTransform(ot[1], ot[2]))
+    else:
+        raise ValueError(ot)
+    if ot[0] != "inv_same":
+        ctx.probes.hit("ode-solved-through:" + ot[0])
+    state["tf_ivp"] = InverseRTransform(tf)
     state["center"] = c
     state["pts0"] = c + np.random.RandomState(g["pseed"]).uniform(-2.0, 2.0, size=(12, 3))  # oracle's own copy
     # two of the evaluation points are special: very close to the centre, and far outside the charge
@@ -441,7 +474,8 @@ def _op_ivp(ctx, op, state):
     _, which = op
     g, c, pts = state["grid"], state["center"], state["pts"]
     spec = [t for t in _dens_spec(ctx, which) if t[0] == "s"]  # IVP solver: spherically symmetric densities
-    if not spec:
+    if not spec or (ctx.spec["grid"].get("radial") or ["becke"])[0] != "becke":
+        # (the IVP starts at r = 300-1000: only radial grids that reach that far - the Becke-mapped ones - are used with it)
         ctx.log.add(ctx.step, "ivp", "skip")
         return
     rho = _density(spec, g.points, c)
@@ -451,7 +485,7 @@ def _op_ivp(ctx, op, state):
         ctx.probes.hit("one-options-dict-shared-by-bvp-and-ivp")
     else:
         state["ivp_params"] = state.get("ivp_params", {})
-    oc = _outcome(lambda: solve_poisson_ivp(g, rho, state["tf"], r_interval=tuple(ctx.spec["grid"].get("r_interval") or (500.0, 1e-3)), ode_params=state["ivp_params"])(pts))
+    oc = _outcome(lambda: solve_poisson_ivp(g, rho, state["tf_ivp"], r_interval=tuple(ctx.spec["grid"].get("r_interval") or (500.0, 1e-3)), ode_params=state["ivp_params"])(pts))
     if oc[0] == "raise":
         ctx.violate("ivp-raise", "ivp", type(oc[1]).__name__, f"solve_poisson_ivp raised {oc[1]!r} on the shared grid / options")
         return
@@ -779,6 +813,16 @@ class PoissonSeamEngine:
             opts = {"boundary_scale": rng.choice([0.0, 0.0, 0.5, 2.0]), "remove_large_pts": rng.choice([20.0, 30.0])}
             grid["far_inside"] = True
         grid["opts"] = opts
+        if not ptype and rng.random() < 0.3:
+            # other radial grids / other maps for the radial ODEs (spherically symmetric densities only: the l > 0 channels
+            # do not converge through the identity map), and probes beyond a modest cut-off radius
+            if rng.random() < 0.5:
+                grid["radial"] = rng.choice([["linfin", 1e-3, rng.choice([10.0, 14.0])], ["knowles", grid["rmin"], grid["R"], 2]])
+            grid["ode_tf"] = rng.choice([["identity"], ["identity"], ["inv_becke", rng.choice([0.0, 1e-4]), rng.choice([1.0, 2.5])], ["inv_linfin", 0.0, rng.choice([70.0, 200.0])]])
+            if "boundary_scale" not in opts and rng.random() < 0.6:
+                opts["remove_large_pts"] = rng.choice([9.0, 15.0])
+            if grid.get("radial", ["becke"])[0] == "linfin":
+                opts.pop("include_origin", None)  # (leaving out the node at r = 0 needs many radial nodes near the origin: not on a linearly mapped grid)
         if rng.random() < 0.45:
             grid["ctor"] = rng.choice(["list", "list", "array", "matched", "sizes", "pruned"])
             grid["deg_hi"] = rng.choice([5, 5, 7]) if grid["deg"] <= 4 else 7
